@@ -18,6 +18,9 @@ ops (tokens after `C07`):
 * `nassoc <fits;…> <refs;…> <membest|none> <memworst|none> <memext|none> <sing|x,…>`
                                                  → `<niches> <dists>` with the model's own normalisation
 * `nassocd …`                                    → `<dists>` only
+* `nsga3f <fronts;…> <k> <fits by id;…> <refs;…> <membest|none> <memworst|none> <memext|none> <sing|x,…> <tape|none>`
+                                                 → chosen ids: normalisation → association → niching
+* `icpt <extreme;…> <best> <worst> <frontworst> <sing|x,…>` → `find_intercepts`
 -/
 namespace DriverC07
 open Proto
@@ -66,6 +69,28 @@ def runNorm (a : NormArgs) : List Float × List Float × List (List Float) × Li
   Nsga3.normalisation (fun _ _ => a.sol) a.fits a.mb a.mw a.me
 
 def handle : List String → String
+  | ["icpt", es, bs, ws, fws, ss] =>
+    match (do
+      let e ← parseList2 parseFloat es
+      let b ← parseList parseFloat bs
+      let w ← parseList parseFloat ws
+      let fw ← parseList parseFloat fws
+      let sol ← parseSolve ss
+      pure (e, b, w, fw, sol)) with
+    | some (e, b, w, fw, sol) =>
+      let m := b.length
+      if m = 0 || w.length != m || fw.length != m || !(rect e m) || e.length != m then "bad-op" else
+      showList showFloat (Nsga3.findIntercepts (fun _ _ => sol) e b w fw)
+    | none => "bad-op"
+  | ["nsga3f", frs, ks, fs, rs, bs, ws, es, ss, ts] =>
+    match parseNorm fs bs ws es ss, parseList2 parseNat frs, parseNat ks, parseList2 parseFloat rs, parseTape ts with
+    | some a, some fr, some k, some r, some t =>
+      let m := (a.fits.headD []).length
+      if r.isEmpty || !(rect r m) || fr.flatten.any (fun i => decide (a.fits.length ≤ i)) then "bad-op" else
+      match Nsga3.selNSGA3Full (fun _ _ => a.sol) fr k (fun i => a.fits.getD i []) r a.mb a.mw a.me t with
+      | .error e => showErr e
+      | .ok ch => showList toString ch
+    | _, _, _, _, _ => "bad-op"
   | ["norm", fs, bs, ws, es, ss] =>
     match parseNorm fs bs ws es ss with
     | some a =>
